@@ -152,6 +152,18 @@ def oracle_props(ck, rng):
             r = mm.align(xs, ms)
             if np.abs(np.round(r.shift) - am).max() > 0 and np.abs(r.shift - am).max() > 0.55:
                 fails.append(f"{M.__name__}: landscape max at {am.tolist()} but align reports {np.round(r.shift, 2).tolist()}")
+        # ZNCC without a mask: the whole landscape (not only its centre) is unchanged by adding a constant to the sub-volume,
+        # and its maximum still lies at the displacement alignment reports
+        zl_ = ZNCCAlignment(t)
+        off = float(rng.choice([0.5, 3.0])) * float(t.std()) * 5
+        l_a = np.asarray(zl_.landscape(xs, (2.0, 2.0, 2.0)))
+        l_b = np.asarray(zl_.landscape(xs + np.float32(off), (2.0, 2.0, 2.0)))
+        if np.abs(l_a - l_b).max() > 2e-3:
+            fails.append(f"zncc landscape-offset: adding {off:.3f} changes the landscape by up to {np.abs(l_a - l_b).max():.3f}")
+        am_b = np.array(np.unravel_index(np.argmax(l_b), l_b.shape)) - (np.array(l_b.shape) // 2)
+        r_b = zl_.align(xs + np.float32(off), (2.0, 2.0, 2.0))
+        if np.abs(np.round(r_b.shift) - am_b).max() > 0 and np.abs(r_b.shift - am_b).max() > 0.55:
+            fails.append(f"zncc landscape-offset-argmax: landscape max at {am_b.tolist()} but align reports {np.round(r_b.shift, 2).tolist()}")
         ck.oracle_count("score_semantics", 1, 1)
         for f in fails:
             ck.violation(what=f, inp=c, key={"site": "semantics", "law": f.split(":")[0].split(" ")[0] + " " + (f.split(" ")[1] if " " in f else "")},
